@@ -145,6 +145,42 @@ func c13Gen(tier string, r *rand.Rand) []Case {
 		return []c13Op{c13w(r, r.IntN(50)), c13Op{Op: "sum"}, c13w(r, 1+r.IntN(200)), c13Op{Op: "sum"},
 			c13Op{Op: "compute", Data: hx(x)}, c13Op{Op: "sum"}, c13Op{Op: "reset"}, c13Op{Op: "write", Data: hx(x)}, c13Op{Op: "sum"}}
 	}
+	// streaming side of KMAC: random interleavings of Write (incl. EMPTY writes), SumHash, Reset,
+	// ComputeHash on one object, and the deterministic "empty write just before Reset" shape
+	nKmacMix := 12
+	if th {
+		nKmacMix = 200
+	}
+	for i := 0; i < nKmacMix; i++ {
+		var ops []c13Op
+		n := 3 + r.IntN(7)
+		for j := 0; j < n; j++ {
+			switch r.IntN(9) {
+			case 0:
+				ops = append(ops, c13Op{Op: "sum"})
+			case 1:
+				ops = append(ops, c13Op{Op: "reset"})
+			case 2:
+				ops = append(ops, c13Op{Op: "compute", Data: hx(rbytes(r, r.IntN(200)))})
+			case 3, 4:
+				ops = append(ops, c13w(r, 0))
+			case 5:
+				ops = append(ops, c13w(r, 0), c13Op{Op: "reset"})
+			default:
+				ops = append(ops, c13w(r, []int{1, 7, 167, 168, 169, 40}[r.IntN(6)]))
+			}
+		}
+		ops = append(ops, c13Op{Op: "sum"})
+		add("kmac-interleave", c13In{Alg: "kmac128", Key: hx(rbytes(r, 16+r.IntN(40))), Cust: hx(rbytes(r, r.IntN(10))), OutSize: 32, Ops: ops})
+	}
+	for _, alg := range []string{"kmac128", "sha3_256", "sha3_384", "keccak_256", "sha2_256", "sha2_384"} {
+		in := c13In{Alg: alg, Ops: []c13Op{c13w(r, 9), c13w(r, 0), c13Op{Op: "reset"}, c13w(r, 5), c13Op{Op: "sum"},
+			c13w(r, 0), c13Op{Op: "reset"}, c13w(r, 0), c13Op{Op: "sum"}}}
+		if alg == "kmac128" {
+			in.Key, in.Cust, in.OutSize = hx(rbytes(r, 20)), hx(rbytes(r, 3)), 32
+		}
+		add("empty-write-then-reset", in)
+	}
 	keyLens := []int{16, 17, 32, 100, 161, 162, 163, 164, 165, 329, 330, 331, 332, 333, 400}
 	if th {
 		keyLens = nil
